@@ -142,6 +142,11 @@ func body() {
 	}
 	close(ch)
 	wg.Wait()
+	// directed schedule: compactions re-enabled while a delete runs
+	for i, n := 0, r.Pick(2, 8); i < n; i++ {
+		index := []string{"inmem", "tsi1"}[i%2]
+		reenableScenario(fmt.Sprintf("reenable/%d", i), int64(i), index, filepath.Join(root, fmt.Sprintf("re%d", i)))
+	}
 	r.Finish()
 }
 
